@@ -724,6 +724,9 @@ def opNvalid (w : World) (a : Args) : World × String :=
     | none =>
       if a.get? "path" == some "str" && m.kind == .packed then (w, "nocount") else
       let n := nValid m.vc m.st
+      -- a view never caches the count: its storage changes whenever its parent is written
+      -- (after the `fix:` commit; before it a view answered a stale count)
+      if m.view.isSome then (w, toString n) else
       (w.put (a.pos.headD "") { m with cache := some n }, toString n)
 
 def opCovmap (w : World) (a : Args) : World × String :=
